@@ -19,8 +19,11 @@ sys.path.insert(0, str(HERE))
 import tla  # noqa: E402
 from tla import MachineryError  # noqa: E402
 
-EVID = VERIF / "evidence"
-REPLAYS = VERIF / "replays"
+# development aid (tools/try_mutant2.sh): VERIF_OUT redirects evidence / replays so that a scratch copy of the
+# repository can be checked while the registered commands run against /repo; unset in every registered command
+_OUT = Path(os.environ.get("VERIF_OUT", str(VERIF)))
+EVID = _OUT / "evidence"
+REPLAYS = _OUT / "replays"
 
 
 def seed() -> int:
